@@ -1,4 +1,5 @@
 import FitProps.EndToEndItemsLemmas
+import FitProps.EndToEndExactLemmas
 import FitProps.C06
 /-!
 File level of the end-to-end composition (C01): the decoder-API model's `Decode` on what `Fit.Wire.encodeFit` writes —
@@ -214,7 +215,8 @@ theorem decode_sequence (o : DecApi.Opts) (w : Wire.Opts) (h : Wire.Hdr) (kept :
     (hfac : facOKB o.fac = true) (hk : KeptOK {} kept) (hdom : ∀ m ∈ kept, MsgDom o.fac m) :
     ∃ f, stepDecode (St.fresh o (encodeFit w h (kept.map (toWire w.arch)) ++ tail)) = (St.fresh o tail, .fit f, []) ∧
       seqMatches reread true o.fac w.arch {} kept (f.msgs.map proj) = true ∧
-      f.hdr.size = h.size ∧ f.hdr.protoVer = h.protoVer ∧ f.hdr.profileVer = h.profileVer := by
+      f.hdr.size = h.size ∧ f.hdr.protoVer = h.protoVer ∧ f.hdr.profileVer = h.profileVer ∧
+      f.msgs.map proj = actualSeq o.fac w kept := by
   -- names
   generalize hwms : kept.map (toWire w.arch) = wms at *
   generalize hrecs : encodeMsgs w (freshEnc w) wms = recs at *
@@ -226,12 +228,12 @@ theorem decode_sequence (o : DecApi.Opts) (w : Wire.Opts) (h : Wire.Hdr) (kept :
   -- the records, by the wire-level round trip
   let tsKnown : Nat → Bool := fun m => (o.fac.create m fieldNumTimestamp).known
   have hinv : DefInv w.arch (freshEnc w).lru DecState.fresh := DefInv.fresh w.arch w.lruCap hw.capPos hw.cap16 _
-  obtain ⟨items, hdec, hall⟩ := encodeMsgs_roundtripF tsKnown w hw.arch wms (freshEnc w) DecState.fresh hfit.msgs hinv hw.cap4
+  obtain ⟨items, hdec, hall⟩ := encodeMsgs_roundtripF_exact tsKnown w hw.arch wms (freshEnc w) DecState.fresh hfit.msgs hinv hw.cap4
     (fun _ => Or.inl rfl) (Wire.le16 (write 0 recs) ++ tail) ((recs ++ (Wire.le16 (write 0 recs) ++ tail)).length + 1)
     (by rw [hrecs]; simp; omega)
   rw [hrecs] at hdec
   -- what they interpret to
-  obtain ⟨msgs, hgood, hmatch⟩ := good_items o.fac hfac w.arch items kept {} (by rw [hwms]; exact hall) hk hdom
+  obtain ⟨msgs, hgood, hmatch, hexact⟩ := good_items_exact o.fac hfac w items kept {} 0 0 (by rw [hwms]; exact hall) hk hdom
   -- the header
   set_option maxRecDepth 2048 in
   have hhdr := decodeFileHeader_hdrBytes (St.fresh o (hdrBytes h recs.length ++ (recs ++ (Wire.le16 (write 0 recs) ++ tail)))) h recs.length
@@ -285,7 +287,7 @@ theorem decode_sequence (o : DecApi.Opts) (w : Wire.Opts) (h : Wire.Hdr) (kept :
     simp only [hv, hne, ↓reduceIte]
   -- assemble
   have hfuel : fuelOf s1 = (recs ++ (Wire.le16 (write 0 recs) ++ tail)).length + 1 := by simp [fuelOf, s1rest]
-  refine ⟨⟨H, msgs, write 0 recs⟩, ?_, hmatch, by rw [← hH], by rw [← hH], by rw [← hH]⟩
+  refine ⟨⟨H, msgs, write 0 recs⟩, ?_, hmatch, by rw [← hH], by rw [← hH], by rw [← hH], hexact⟩
   unfold stepDecode
   simp only [St.fresh]
   unfold decodeBody headerOnce
@@ -370,7 +372,8 @@ theorem headerOnce_empty (o : DecApi.Opts) : headerOnce (St.fresh o []) = .err .
 under the file's header -/
 def FitMatch (o : DecApi.Opts) (w : Wire.Opts) (file : Wire.Hdr × List Message) (f : DecApi.Fit) : Prop :=
   seqMatches reread true o.fac w.arch {} file.2 (f.msgs.map proj) = true ∧
-    f.hdr.size = file.1.size ∧ f.hdr.protoVer = file.1.protoVer ∧ f.hdr.profileVer = file.1.profileVer
+    f.hdr.size = file.1.size ∧ f.hdr.protoVer = file.1.protoVer ∧ f.hdr.profileVer = file.1.profileVer ∧
+    f.msgs.map proj = actualSeq o.fac w file.2
 
 /-- **The `for dec.Next() { dec.Decode() }` loop over a chain** returns one matching sequence per file, in order, and
 ends without error. -/
@@ -403,7 +406,7 @@ theorem decodeLoop_chain (o : DecApi.Opts) (w : Wire.Opts) (ho : PlainOpts o) (h
       have hcb : chainBytes w (file :: files) = encodeFit w file.1 (file.2.map (toWire w.arch)) ++ chainBytes w files := by
         simp [chainBytes]
       rw [hcb] at had hsmall
-      obtain ⟨f, hdec, hmatch, hh1, hh2, hh3⟩ := decode_sequence o w file.1 file.2 (chainBytes w files) ho hw hfile.fit hfile.typed
+      obtain ⟨f, hdec, hmatch, hh1, hh2, hh3, hh4⟩ := decode_sequence o w file.1 file.2 (chainBytes w files) ho hw hfile.fit hfile.typed
         (chainBytes_bytes o w hw files (fun g hg => hok g (List.mem_cons_of_mem _ hg))) hsmall hfac hfile.keptOK hfile.dom
       have hpos := encodeFit_pos w file.1 (file.2.map (toWire w.arch))
       -- the state after `Next`, and `Decode` from there
@@ -428,7 +431,7 @@ theorem decodeLoop_chain (o : DecApi.Opts) (w : Wire.Opts) (ho : PlainOpts o) (h
       obtain ⟨fits, hl, hm⟩ := ih (a1.advance (St.fresh o (chainBytes w files))) fuel rfl
         (by intro h0; simp only [Api.advance, St.fresh] at h0; exact absurd h0 hne1) (by simp at hfuel; omega)
         (fun g hg => hok g (List.mem_cons_of_mem _ hg)) (by rw [List.length_append] at hsmall; omega)
-      refine ⟨f :: fits, ?_, AllMatch.cons ⟨hmatch, hh1, hh2, hh3⟩ hm⟩
+      refine ⟨f :: fits, ?_, AllMatch.cons ⟨hmatch, hh1, hh2, hh3, hh4⟩ hm⟩
       simp only [decodeLoop, hn1]
       simp only [DecApi.step, hd1, hdec, hl]
 
@@ -637,6 +640,44 @@ theorem seqMatches_normal (fac : Factory) (arch : Nat) : ∀ (kept : List Messag
           msgVariants reread true fac arch (Fit.Validator.remember vst m.num m.fields).fds m := by
         simp only [msgVariants, hfe m.fields (fun f hf => hf), hfe (removeTs m.fields) (mem_removeTs m.fields), hde]
       rw [this]; exact h.1
+
+/-- the deterministic form of `seqMatches_normal`: outside the three finding classes `seqBack` with the code's values is
+`seqBack` with the normal form (same encoder decisions: they do not depend on how values are read back) -/
+theorem seqBack_normal (fac : Factory) (w : Wire.Opts) : ∀ (kept : List Message) (st : SeqSt),
+    KeptOK st.vst kept → (∀ m ∈ kept, MsgDom fac m) →
+    seqClass (fun _ _ _ v => kfZeroV v) fac st.vst kept = false → seqClass kfArrV fac st.vst kept = false →
+    seqClass (fun _ _ _ v => kfFFFDV v) fac st.vst kept = false →
+    seqBack reread true fac w st kept = seqBack normalValue false fac w st kept := by
+  intro kept
+  induction kept with
+  | nil => intro st _ _ _ _ _; rfl
+  | cons m ms ih =>
+    intro st hk hd hz ha hc
+    obtain ⟨_, _, hF, hD, hkr⟩ := hk
+    have hdm := hd m (by simp)
+    simp only [seqClass, Bool.or_eq_false_iff, List.any_eq_false] at hz ha hc
+    have hfe : ∀ fs : List Field, (∀ f ∈ fs, f ∈ m.fields) →
+        fs.filterMap (fieldBack reread true fac m.num) = fs.filterMap (fieldBack normalValue false fac m.num) := by
+      intro fs hsub
+      apply filterMap_congr'
+      intro f hf
+      have hfm := hsub f hf
+      exact fieldBack_normal fac m.num f (hF f hfm) (hdm.wff f hfm) (hdm.agree f hfm).2
+        (by simpa using hz.1.1 f hfm) (by simpa using ha.1.1 f hfm) (by simpa using hc.1.1 f hfm)
+    have hde : m.devFields.filterMap (devBack reread true (Fit.Validator.remember st.vst m.num m.fields).fds) =
+        m.devFields.filterMap (devBack normalValue false (Fit.Validator.remember st.vst m.num m.fields).fds) := by
+      apply filterMap_congr'
+      intro d hd'
+      exact devBack_normal _ d (hdm.wfd d hd') (hD d hd') (by simpa using hz.1.2 d hd') (by simpa using ha.1.2 d hd')
+        (by simpa using hc.1.2 d hd')
+    have hmb : msgBack reread true fac w st m = msgBack normalValue false fac w st m := by
+      simp only [msgBack, hfe m.fields (fun f hf => hf), hfe (removeTs m.fields) (mem_removeTs m.fields), hde]
+    simp only [seqBack, hmb]
+    congr 1
+    have hst : (msgBack normalValue false fac w st m).2.vst = Fit.Validator.remember st.vst m.num m.fields := by
+      simp only [msgBack]
+    exact ih _ (by rw [hst]; exact hkr) (fun x hx => hd x (List.mem_cons_of_mem _ hx)) (by rw [hst]; exact hz.2)
+      (by rw [hst]; exact ha.2) (by rw [hst]; exact hc.2)
 
 /-! ### the encoder's chain and the composition -/
 
